@@ -22,6 +22,7 @@ pub mod p09_bitmap;
 pub mod p10_maps;
 pub mod p13_io_twins;
 pub mod p14_faults;
+pub mod p11_atomic;
 pub mod p12_lifetime;
 pub mod progs;
 pub mod p15_construct;
@@ -42,6 +43,7 @@ pub fn properties() -> Vec<Property> {
         p07_nocrash::property(),
         p09_bitmap::property(),
         p10_maps::property(),
+        p11_atomic::property(),
         p12_lifetime::property(),
         p13_io_twins::property(),
         p14_faults::property(),
